@@ -417,8 +417,11 @@ def divide_before_multiply(n, ctx):
 def floating_pragma(n, ctx):
     if n.ty != 'SourceUnitPart' or n.variant != 'PragmaDirective':
         return NEVER
-    v = sname(n.fields[2].fields[2])
+    lit = n.fields[2].fields[2]
+    v = sname(lit)
     if v is None:
+        if isinstance(lit, Str):
+            return three(z3.Contains(lit.z(), z3.StringVal('^')))      # a caret anywhere in the version expression
         return FREE
     return FLAG if '^' in v else NEVER
 
